@@ -4,13 +4,19 @@ package main
 //
 // Kind "streams": exchanges ABANDONED at their deadline on ONE multiplexed connection whose peer allows only a few
 // concurrent streams, then healthy exchanges.
-//   case:   <id> tr=<doq|doh> m=<stream limit of the server> k=<abandoned exchanges> fault=<lie|silent> conc=<0|1>
-//                dl=<ms> after=<n>
+//   case:   <id> tr=<doq|doh|h3> m=<stream limit of the server> k=<abandoned exchanges> fault=<lie|silent> conc=<0|1>
+//                dl=<ms> after=<n> [fin=<now|never|late|reset>] [aconc=<0|1>]
+//     fin (round 6): how the server ends ITS side of a stream it ANSWERED (correct, complete reply): now = FIN with the
+//     reply; never = its send side stays open until the client makes it stop (STOP_SENDING / RST_STREAM); late = FIN
+//     200 ms after the reply; reset = it resets the stream 50 ms after the reply.  aconc: the answered exchanges run in
+//     batches of m-1 at once, 60 ms apart.
+//     fault=nofin (doh, h3): the complete body is sent but the stream is never ended.
 //     2 ordinary exchanges (the connection is cached), then k exchanges (deadline dl; one after the other, or - conc=1 -
 //     in batches of m at once) that the server answers with a reply whose length prefix announces more octets than it
 //     sends, leaving the stream unfinished (lie), or not at all (silent); 300 ms later n exchanges that the server
 //     answers normally (deadline 1.5 s).
 //   result: bad=<E|R|H per abandoned exchange> after=<R|E|H per exchange> late=<0|1> acc=<connections accepted in all>
+//           left=<answered streams whose server side is still unfinished 350 ms after the last exchange>
 //
 // Kind "stall": the server accepts (and completes the TLS handshake) and then never READS; its kernel stays alive.
 //   case:   <id> tr=<tcpp|tlsp|tcp|tls> n=<exchanges> pad=<octets> sndbuf=<octets> dl=<ms> srv=<one|all>
@@ -62,7 +68,12 @@ func streamsCase(f map[string]string) string {
 	conc := f["conc"] == "1"
 	dl := time.Duration(hx.MustAtoi(f["dl"])) * time.Millisecond
 	after := hx.MustAtoi(f["after"])
-	if tr != "doq" && tr != "doh" {
+	fin := f["fin"] // round 6: how the server ends ITS side of an answered stream
+	if fin == "" {
+		fin = "now"
+	}
+	aconc := f["aconc"] == "1"
+	if tr != "doq" && tr != "doh" && tr != "h3" {
 		return "HARNESS-ERROR unsupported transport " + tr
 	}
 	srv, err := ogNewServer(tr)
@@ -72,32 +83,99 @@ func streamsCase(f map[string]string) string {
 	defer srv.release()
 	srv.maxStreams = int64(m)
 	var faulty atomic.Bool
+	var sopen atomic.Int32 // answered streams whose server side is not finished yet
 	stop := make(chan struct{})
 	defer close(stop)
+	const lateFin = 200 * time.Millisecond
 	srv.quicFn = func(st quic.Stream, q []byte) bool {
-		if !faulty.Load() {
+		if faulty.Load() {
+			if fault == "lie" { // announces 200 octets, sends 10, leaves the stream unfinished
+				st.Write(append([]byte{0, 200}, hx.BuildReply(q, false, 0, [4]byte{1, 4, 1, 4}, 60)[:10]...))
+			}
+			return true
+		}
+		if fin == "now" {
 			return false
 		}
-		if fault == "lie" { // announces 200 octets, sends 10, leaves the stream unfinished
-			st.Write(append([]byte{0, 200}, hx.BuildReply(q, false, 0, [4]byte{1, 4, 1, 4}, 60)[:10]...))
+		// a correct, complete reply ...
+		sopen.Add(1)
+		st.Write(c14Frame(hx.BuildReply(q, false, 0, [4]byte{1, 4, 1, 4}, 60)))
+		switch fin { // ... and then
+		case "never": // the send side is left open; it ends only when the client tells us to stop sending
+			select {
+			case <-st.Context().Done():
+			case <-stop:
+			}
+		case "late":
+			select {
+			case <-time.After(lateFin):
+			case <-st.Context().Done():
+			}
+			st.Close()
+		case "reset":
+			select {
+			case <-time.After(50 * time.Millisecond):
+			case <-st.Context().Done():
+			}
+			st.CancelWrite(1)
 		}
+		sopen.Add(-1)
 		return true
 	}
 	srv.dohFn = func(w http.ResponseWriter, r *http.Request, q []byte) bool {
-		if !faulty.Load() {
+		if faulty.Load() {
+			if fault == "lie" {
+				w.Header().Set("Content-Type", "application/dns-message")
+				w.Header().Set("Content-Length", "200")
+				w.Write(hx.BuildReply(q, false, 0, [4]byte{1, 4, 1, 4}, 60)[:10])
+				if fl, ok := w.(http.Flusher); ok {
+					fl.Flush()
+				}
+			}
+			if fault == "nofin" { // the complete body, but the stream is never ended: not a complete HTTP message
+				reply := hx.BuildReply(q, false, 0, [4]byte{1, 4, 1, 4}, 60)
+				w.Header().Set("Content-Type", "application/dns-message")
+				w.Header().Set("Content-Length", fmt.Sprint(len(reply)))
+				w.Write(reply)
+				if fl, ok := w.(http.Flusher); ok {
+					fl.Flush()
+				}
+			}
+			select { // the stream stays open until the client gives it up
+			case <-r.Context().Done():
+			case <-stop:
+			}
+			return true
+		}
+		if fin == "now" {
 			return false
 		}
-		if fault == "lie" {
-			w.Header().Set("Content-Type", "application/dns-message")
-			w.Header().Set("Content-Length", "200")
-			w.Write(hx.BuildReply(q, false, 0, [4]byte{1, 4, 1, 4}, 60)[:10])
-			if fl, ok := w.(http.Flusher); ok {
-				fl.Flush()
-			}
+		sopen.Add(1)
+		defer sopen.Add(-1)
+		reply := hx.BuildReply(q, false, 0, [4]byte{1, 4, 1, 4}, 60)
+		w.Header().Set("Content-Type", "application/dns-message")
+		w.Header().Set("Content-Length", fmt.Sprint(len(reply)))
+		w.Write(reply)
+		if fl, ok := w.(http.Flusher); ok {
+			fl.Flush()
 		}
-		select { // the stream stays open until the client gives it up
-		case <-r.Context().Done():
-		case <-stop:
+		switch fin { // the complete body is out; the stream is not ended (no END_STREAM / FIN) until ...
+		case "never":
+			select {
+			case <-r.Context().Done():
+			case <-stop:
+			}
+		case "late":
+			select {
+			case <-time.After(lateFin):
+			case <-r.Context().Done():
+			}
+		case "reset":
+			select {
+			case <-time.After(50 * time.Millisecond):
+			case <-r.Context().Done():
+			}
+			panic(http.ErrAbortHandler)
 		}
 		return true
 	}
@@ -141,18 +219,53 @@ func streamsCase(f map[string]string) string {
 		}
 	}
 	faulty.Store(false)
-	time.Sleep(300 * time.Millisecond)
-	// ---- healthy again
-	var ab strings.Builder
-	for i := 0; i < after; i++ {
-		c, _ := ogOne(u, uint16(0x3000+i), 1500*time.Millisecond)
-		ab.WriteByte(c)
-		if c == 'H' || c == 'L' {
-			late = 1
-			break
+	if k > 0 {
+		time.Sleep(300 * time.Millisecond)
+	}
+	// ---- answered exchanges: one after the other, or (aconc) in batches of m at once
+	ab := make([]byte, after)
+	for i := range ab {
+		ab[i] = '-'
+	}
+	if aconc {
+		// batches BELOW the limit, with a pause: stream credit comes back one round trip after a stream has ended, and
+		// an exchange beyond what the peer allows at that instant fails at once by design (OpenStream does not wait)
+		bsz := m - 1
+		if bsz < 1 {
+			bsz = 1
+		}
+		for base := 0; base < after && late == 0; base += bsz {
+			if base > 0 {
+				time.Sleep(60 * time.Millisecond)
+			}
+			var wg sync.WaitGroup
+			for i := base; i < after && i < base+bsz; i++ {
+				wg.Add(1)
+				go func(i int) {
+					defer wg.Done()
+					ab[i], _ = ogOne(u, uint16(0x3000+i), 1500*time.Millisecond)
+				}(i)
+			}
+			wg.Wait()
+			for _, c := range ab {
+				if c == 'H' || c == 'L' {
+					late = 1
+				}
+			}
+		}
+	} else {
+		for i := 0; i < after; i++ {
+			ab[i], _ = ogOne(u, uint16(0x3000+i), 1500*time.Millisecond)
+			if ab[i] == 'H' || ab[i] == 'L' {
+				late = 1
+				break
+			}
 		}
 	}
-	return fmt.Sprintf("bad=%s after=%s late=%d acc=%d", string(bad), ab.String(), late, srv.acc.Load())
+	as := strings.TrimRight(string(ab), "-")
+	// streams still open at the server once everything has settled (a late FIN is out by then)
+	time.Sleep(lateFin + 150*time.Millisecond)
+	return fmt.Sprintf("bad=%s after=%s late=%d acc=%d left=%d", string(bad), as, late, srv.acc.Load(), sopen.Load())
 }
 
 func stallCase(f map[string]string) string {
